@@ -22,6 +22,11 @@ PairVerdict(e) ==
     ELSE IF e.lt # e.rgt THEN "lt-is-reversed-gt"
     ELSE IF e.gt # e.rlt THEN "gt-is-reversed-lt"
     ELSE IF e.eq # e.req THEN "eq-symmetric"
+    \* every number (dates count as their serials) is smaller than every text, every text smaller than a logical value
+    ELSE IF "ka" \in DOMAIN e /\ e.ka = "num" /\ e.kb \in {"txt", "bool"} /\ ~e.lt THEN "rank-number-below-text-below-logical"
+    ELSE IF "ka" \in DOMAIN e /\ e.ka = "txt" /\ e.kb = "bool" /\ ~e.lt THEN "rank-number-below-text-below-logical"
+    ELSE IF "ka" \in DOMAIN e /\ e.kb = "num" /\ e.ka \in {"txt", "bool"} /\ ~e.gt THEN "rank-number-below-text-below-logical"
+    ELSE IF "ka" \in DOMAIN e /\ e.kb = "txt" /\ e.ka = "bool" /\ ~e.gt THEN "rank-number-below-text-below-logical"
     ELSE "ok"
 TripleVerdict(e) == IF e.ab /\ e.bc /\ ~e.ac THEN "transitivity" ELSE "ok"
 
